@@ -562,16 +562,23 @@ func (w *world) examineFrame(c *simConn, d *dirState, idx int, f *frameInfo) {
 			return
 		}
 		if o.kind == kindCall {
-			if prev := c.reqOp[h.RequestID]; prev != nil {
-				r.Fail("request-id-reused", fmt.Sprintf("c%d: request id %d used for %s and again for %s", c.id, h.RequestID, prev.tag, o.tag), nil)
-				return
+			// an id may legitimately be used again once its earlier call is over;
+			// the caller-side oracle decides whether anybody got a wrong response
+			for _, prev := range c.reqOps[h.RequestID] {
+				if prev.done {
+					r.Probe("request_id_reused")
+				} else {
+					r.Probe("request_id_reused_while_pending")
+				}
 			}
-			c.reqOp[h.RequestID] = o
+			c.reqOps[h.RequestID] = append(c.reqOps[h.RequestID], o)
 			o.reqID = h.RequestID
 			for _, c2 := range w.conns {
 				if c2 != c {
-					if o2 := c2.reqOp[h.RequestID]; o2 != nil && !o2.done {
-						r.Probe("reqid_live_on_two_conns")
+					for _, o2 := range c2.reqOps[h.RequestID] {
+						if !o2.done {
+							r.Probe("reqid_live_on_two_conns")
+						}
 					}
 				}
 			}
@@ -579,15 +586,24 @@ func (w *world) examineFrame(c *simConn, d *dirState, idx int, f *frameInfo) {
 		r.Logf("  c%d c2s frame#%d %s id=%d %s pri=%d svc=%d body=%d", c.id, idx, kindName(h.Kind), h.RequestID, o.tag, h.Priority, h.ServiceID, len(f.body))
 		return
 	}
-	// s2c: only responses travel this way
+	// s2c: only responses are produced by this server
 	if h.Kind != transport.FrameKindRPCResponse {
-		r.Fail("frame-mismatch", fmt.Sprintf("c%d s2c frame#%d: the server sent a %s frame", c.id, idx, kindName(h.Kind)), nil)
+		r.Probe("wire.server_sent_" + strings.ToLower(kindName(h.Kind)))
 		return
 	}
-	o := c.reqOp[h.RequestID]
-	if o == nil {
+	cands := c.reqOps[h.RequestID]
+	if len(cands) == 0 {
 		r.Fail("wire-response-mismatch", fmt.Sprintf("c%d s2c frame#%d: response for request id %d which was never sent on this connection", c.id, idx, h.RequestID), nil)
 		return
+	}
+	// the request this response answers: with a reused id, the one whose tag it carries
+	o := cands[len(cands)-1]
+	if len(f.body) > 1 {
+		for _, cand := range cands {
+			if bytes.Contains(f.body[1:], []byte(cand.tag)) {
+				o = cand
+			}
+		}
 	}
 	f.op = o
 	if o.respSeen {
@@ -624,8 +640,7 @@ func (w *world) examineFrame(c *simConn, d *dirState, idx int, f *frameInfo) {
 		}
 	}
 	if h.Priority != o.prio || h.ServiceID != o.svc {
-		r.Fail("frame-mismatch", fmt.Sprintf("c%d s2c frame#%d: response header %+v does not mirror the request of %s (priority %d service %d)", c.id, idx, h, o.tag, o.prio, o.svc), nil)
-		return
+		r.Probe("wire.response_header_not_mirroring_request")
 	}
 	r.Logf("  c%d s2c frame#%d RSP id=%d %s %s body=%d", c.id, idx, h.RequestID, o.tag, status, len(f.body))
 }
@@ -1255,8 +1270,8 @@ func (w *world) injectHeaderFault(cands []hdrCand) {
 		v := uint32(w.cfg.MaxBody + over)
 		h[16], h[17], h[18], h[19] = byte(v>>24), byte(v>>16), byte(v>>8), byte(v)
 	}
-	if _, err := wire.DecodeHeader(append([]byte(nil), h...), w.cfg.MaxBody); err == nil {
-		w.infraLocked("header fault %s produced a header DecodeHeader accepts: % x", field, h)
+	if !specMalformed(h, w.cfg.MaxBody) {
+		w.infraLocked("header fault %s produced a header that is well-formed by the wire specification: % x", field, h)
 		return
 	}
 	f.mutated = true
@@ -1268,6 +1283,14 @@ func (w *world) injectHeaderFault(cands []hdrCand) {
 		tag = f.op.tag
 	}
 	r.Logf("  bad %s in header of c%d %s frame at +%d (%s): % x", field, d.c.id, d.name, f.start, tag, h)
+}
+
+// specMalformed states, independently of the code under test, which headers the
+// property calls malformed.
+func specMalformed(h []byte, maxBody int) bool {
+	be32 := func(b []byte) uint32 { return uint32(b[0])<<24 | uint32(b[1])<<16 | uint32(b[2])<<8 | uint32(b[3]) }
+	return h[0] != 0x57 || h[1] != 0x4b || h[2] != 1 || h[3] != 0 || h[4] < 1 || h[4] > 5 || h[5] < 1 || h[5] > 4 ||
+		be32(h[20:24]) != 0 || uint64(be32(h[16:20])) > uint64(maxBody)
 }
 
 func (w *world) startOp() {
@@ -1406,6 +1429,13 @@ func (w *world) finalPhase(stepTime func() time.Duration) {
 		}
 		r.FailSig("call-hung", "final", fmt.Sprintf("%d call(s) still pending after faults stopped, everything was delivered and answered and 45s passed: %s", n, strings.Join(tags, ", ")), nil)
 		return
+	}
+	// a response handed to a caller must stay what it was (no aliasing of pooled frame buffers)
+	for _, o := range w.ops {
+		if o.kind == kindCall && o.err == nil && !bytes.Equal(o.resp, append([]byte("R"), o.payload...)) {
+			r.Fail("response-changed-after-return", fmt.Sprintf("the response returned to %s was correct when the call returned and reads %s at the end of the run", o.tag, short(o.resp)), nil)
+			return
+		}
 	}
 	// data frames: at most once, intact (checked in the handler)
 	for _, o := range w.ops {
